@@ -6,7 +6,6 @@ import (
 	"errors"
 	"fmt"
 	"io"
-	"strings"
 
 	"github.com/moorara/algo/grammar"
 	"github.com/moorara/algo/lexer"
@@ -252,7 +251,7 @@ func (l *Lexer) evalDFA(state int) lexer.Token {
 	// REGEX
 	case 50:
 		lexeme, pos := l.in.Lexeme()
-		lexeme = strings.Trim(lexeme, "/")
+		lexeme = lexeme[1 : len(lexeme)-1]
 		return lexer.Token{Terminal: REGEX, Lexeme: lexeme, Pos: pos}
 
 	// Single-Line COMMENT
